@@ -10,10 +10,13 @@
                            concurrently from several goroutines, repeatedly: per program the set of
                            distinct outcomes, which must be the single sequential one (the model
                            builds each program on its own)
+     cli <expr bytes> <flags>  -> the real `addchain search`: last element of the chain loaded from
+                           its standard output = value of the target expression (model/Calc.v)
      names <ops>        -> identifiers after the naming passes, by operand index
      dangling <ops>     -> pass.CheckDanglingInputs(acc.Decompile(p)) *)
 From Coq Require Import String.
 From Coq Require Import List NArith ZArith Bool.
+From AV Require model.Calc.
 From AV Require Import model.Proto model.Chain model.Program model.Ir model.Ast
   model.Decompile model.Naming model.Build proofs.BuildTranslateAux.
 Import ListNotations.
@@ -94,5 +97,12 @@ Definition run (line : list N) : list N :=
           else if str_eqb f $"dangling" then print_outcome (fun _ => $"-") (obind (decompile p) check_dangling)
           else r_badcase
       end
+  | [f; a; _] =>
+      if str_eqb f $"cli" then
+        match parse_bytes a with
+        | Some e => print_outcome print_hexZ (AV.model.Calc.eval e)
+        | None => r_badcase
+        end
+      else r_badcase
   | _ => r_badcase
   end.
